@@ -343,10 +343,15 @@ impl Acc {
 /// /repo, a dependency the library called, or the standard library on the library's behalf - means
 /// a library operation did not return: that breaks every property that promises a result.
 pub fn classify_panic(sub: &str, loc: &str) -> Result<Fail, String> {
+    let prop = sub.chars().take(3).collect::<String>().to_uppercase();
+    if let Some(i) = loc.find("LIBRARY-REFUSED-VALID-INPUT: ") {
+        let msg = &loc[i + "LIBRARY-REFUSED-VALID-INPUT: ".len()..];
+        let what: String = msg.split(" was rejected").next().unwrap_or("").chars().map(|c| if c.is_ascii_alphanumeric() { c } else { '-' }).collect();
+        return Ok(Fail::new(format!("{prop}/valid-input-rejected/{what}"), format!("the library refused an input that is valid by construction: {msg}")));
+    }
     if loc.contains("/verif/harness/") || loc.starts_with("src/") {
         return Err(loc.to_string());
     }
-    let prop = sub.chars().take(3).collect::<String>().to_uppercase();
     Ok(Fail::new(format!("{prop}/panic/{}", crate::util::panic_site(loc)), format!("a library operation panicked instead of returning: {loc}")))
 }
 
@@ -442,6 +447,39 @@ impl SubCheck {
             run: Box::new(move |acc: &mut Acc| {
                 // quick case counts in the property tables are multiplied by 3 (fixed work, not a time quota)
                 let n = acc.tier.pick(cases.0.saturating_mul(3), cases.1);
+                let s = strat(acc.tier);
+                acc.drive("main", n, s, &f);
+            }),
+            replay: Box::new(move |v: &Value, acc: &mut Acc| {
+                let input = v.get("input").cloned().unwrap_or(v.clone());
+                let c: C = serde_json::from_value(input)
+                    .map_err(|e| Fail::new("HARNESS/replay-decode", format!("{e}")))?;
+                // a case may only fail after rejected operations on the thread: replay with that history
+                crate::perturb::rejected_everywhere();
+                f2(&c, acc)
+            }),
+        }
+    }
+
+    pub fn prop_exact<C, S>(
+        name: impl Into<String>,
+        weight: u32,
+        cases: (u32, u32),
+        strat: impl Fn(Tier) -> S + Send + Sync + 'static,
+        f: impl Fn(&C, &mut Acc) -> R + Send + Sync + Clone + 'static,
+    ) -> SubCheck
+    where
+        C: Debug + Clone + Serialize + DeserializeOwned + 'static,
+        S: Strategy<Value = C> + 'static,
+    {
+        let f2 = f.clone();
+        SubCheck {
+            isolate: false,
+            name: name.into(),
+            weight,
+            run: Box::new(move |acc: &mut Acc| {
+                // exact case counts (expensive cases)
+                let n = acc.tier.pick(cases.0, cases.1);
                 let s = strat(acc.tier);
                 acc.drive("main", n, s, &f);
             }),
